@@ -1400,3 +1400,22 @@ package trzsz
 //@   before TrzszFilter.sendInput#0 assert [C05] same(buf, buffer[0:n]) && n == result_of("io.Reader.Read", 0, 0) && n > 0
 //@   before io.WriteCloser.Close assert [C05] result_of("io.Reader.Read", 0, 1) == pkgvar("io.EOF")
 //@ end
+
+// ===========================================================================
+// C02 (continued)  the digest stage of the pipeline (pipeline.go)
+// ===========================================================================
+
+//@ # Everything taken from the source channel is absorbed by the hasher, in order, before the next
+//@ # chunk is taken; the digest handed on is the hasher's state after exactly the bytes received
+//@ # (got bytes, contents src) - no chunk is skipped, batched past the end or hashed twice.
+//@ func trzszTransfer.pipelineCalculateMD5$1
+//@   ghostvar got int = 0
+//@   ghostvar src map[int]int
+//@   after recv:md5SourceChan set src = ite(ok, splice(src, got, view(r0), len(r0)), src)
+//@   after recv:md5SourceChan set got = got + ite(ok, len(r0), 0)
+//@   loop 1
+//@     invariant [C02] wlen[hasher] == got && \
+//@         (forall k int {wlog[hasher][k]} :: 0 <= k && k < got ==> wlog[hasher][k] == src[k])
+//@   before send:md5DigestChan assert [C02] wlen[hasher] == got && \
+//@       (forall k int {wlog[hasher][k]} :: 0 <= k && k < got ==> wlog[hasher][k] == src[k])
+//@ end
